@@ -550,6 +550,52 @@ def str_parts(v):
     return None
 
 
+def _format_literal(template, nodes, values):
+    """parts of `template.format(*values)` for a literal template (None: a field this does not read - names, attribute / index look-ups, nested
+    specs, mixed numbering - or an argument that is not one scalar value)"""
+    import string
+    try:
+        fields = list(string.Formatter().parse(template))
+    except ValueError:
+        return None
+    parts, auto, manual = [], 0, False
+    for lit, name, spec, conv in fields:
+        if lit:
+            parts.append(lit)
+        if name is None:
+            continue
+        if "{" in (spec or "") or "}" in (spec or ""):
+            return None
+        if name == "":
+            if manual:
+                return None
+            k, auto = auto, auto + 1
+        elif name.isdigit():
+            if auto:
+                return None
+            k, manual = int(name), True
+        else:
+            return None
+        if k >= len(values):
+            return None
+        x, a = values[k], nodes[k]
+        if is_unknown(x) or isinstance(x, tuple):
+            return None
+        plain = not spec and conv in (None, "s")
+        c = const_of(x)
+        sp = str_parts(x)
+        if plain and sp is None and c is not None and c.denominator == 1 and not (isinstance(a, ast.Constant) and isinstance(a.value, float)):
+            parts.append(str(int(c)))
+        elif plain and sp is not None:
+            parts += sp
+        else:
+            try:
+                parts.append(F.fn("fmt", need(x), spec or "", "" if conv in (None, "s") else str(ord(conv))))
+            except Unsupported:
+                return None
+    return parts
+
+
 def mk_str(parts):
     out = []
     for p in parts:
@@ -1748,27 +1794,14 @@ class XEval(AutoEvaluator):
                     parts += (sep if i else []) + str_parts(x)
                 return mk_str(parts)                            # ", ".join((f, f))
         if isinstance(node.func, ast.Attribute) and node.func.attr == "format" and nargs >= 1 and not kws:
-            # "b={}".format(4): plain fields filled with integer constants / string literals give the string itself
+            # str.format on a literal template, filled symbolically: "b={}".format(4) is 'b=4'; "{{:.{}f}}".format(precision) is the string
+            # '{:.' + str(precision) + 'f}'; "{0}, {0}".format(f) repeats the parts of f ({{ }} escapes, positional / numbered fields; a field with
+            # a format spec or conversion becomes the same fmt(value, spec, conversion) part an f-string gives)
             fsp = str_parts(self.ev(node.func.value))
             if fsp is not None and len(fsp) == 1 and isinstance(fsp[0], str):
-                import re as _re
-                vals = []
-                for a in node.args:
-                    x = self.ev(a)
-                    c = const_of(x)
-                    sp = str_parts(x) if not isinstance(x, tuple) and not is_unknown(x) else None
-                    if c is not None and c.denominator == 1 and not (isinstance(a, ast.Constant) and isinstance(a.value, float)):
-                        vals.append(str(int(c)))
-                    elif sp is not None and len(sp) == 1 and isinstance(sp[0], str):
-                        vals.append(sp[0])
-                    else:
-                        vals = None
-                        break
-                if vals is not None and _re.fullmatch(r"(?:[^{}]|\{\{|\}\}|\{\d*\})*", fsp[0]):
-                    try:
-                        return F.sym(repr(fsp[0].format(*vals)))
-                    except (IndexError, ValueError, KeyError):
-                        pass
+                filled = _format_literal(fsp[0], node.args, [self.ev(a) for a in node.args])
+                if filled is not None:
+                    return mk_str(filled or [""])
         if isinstance(node.func, ast.Attribute) and node.func.attr == "split" and nargs <= 1 and not kws:
             # "G1 G2 G4".split() / "a,b".split(","): the tuple of the pieces
             ssp = str_parts(self.ev(node.func.value))
